@@ -853,3 +853,154 @@ def init_effects(model, c, _depth=0, _start=None):
                     val = binding.get(val[1], ("value", "<default>"))
                 out.setdefault(attr, val)
     return out
+
+
+# ---------------------------------------------------------------------------
+# counters:  table[key] = table.get(key, 0) + 1  /  table[key] += 1  /  = 1
+
+def counter_writes(pss, key_pred=None):
+    """classify every item-write on the given paths as a counter update:
+    -> list of (table name, key value, kind) with kind
+       "incr"   old value of the same key plus 1 (either spelling)
+       "init1"  constant 1
+       "other"  anything else"""
+    out = []
+    for ps in pss:
+        for e in ps.events:
+            if e.kind != "itemwrite":
+                continue
+            key = e.args[0] if e.args else None
+            if key_pred is not None and not key_pred(key):
+                continue
+            v = e.value
+            kind = "other"
+            if v == ("const", 1):
+                kind = "init1"
+            elif isinstance(v, tuple) and v[0] == "binop" and v[1] == "Add" and \
+                    ("const", 1) in (v[2], v[3]):
+                old = v[3] if v[2] == ("const", 1) else v[2]
+                if old[0] == "other" and old[1].replace(" ", "").startswith(
+                        e.name.replace(" ", "") + "["):
+                    kind = "incr"
+                elif old[0] == "call" and old[1] == f"{e.name}.get" and \
+                        old[2] == (key, ("const", 0)):
+                    kind = "incr"
+                elif old[0] == "index" and old[-1] == key:
+                    kind = "incr"
+            out.append((e.name, key, kind))
+    return out
+
+
+# ---------------------------------------------------------------------------
+# boolean meaning of a small predicate function, by truth table over atoms
+
+class UnknownAtom(Exception):
+    pass
+
+
+def bool_eval(v, atom_of, assignment):
+    """evaluate an abstract boolean value under an assignment of its atoms;
+    atom_of(value) -> atom name or None; raises UnknownAtom"""
+    a = atom_of(v)
+    if a is not None:
+        neg = False
+        if isinstance(a, tuple):
+            a, neg = a
+        return assignment[a] != neg
+    if isinstance(v, tuple):
+        if v[0] == "const" and isinstance(v[1], bool):
+            return v[1]
+        if v[0] == "unop" and v[1] == "Not":
+            return not bool_eval(v[2], atom_of, assignment)
+        if v[0] == "boolop":
+            vals = [bool_eval(x, atom_of, assignment) for x in v[2]]
+            return all(vals) if v[1] == "And" else any(vals)
+        if v[0] == "ifexp" and len(v) == 4:
+            return bool_eval(v[2] if bool_eval(v[1], atom_of, assignment)
+                             else v[3], atom_of, assignment)
+    raise UnknownAtom(str(v)[:120])
+
+
+def predicate_table(pss, atom_of, atoms):
+    """{assignment tuple: bool} for a predicate function given by its path
+    summaries; every assignment must select exactly one returning path"""
+    import itertools
+    table = {}
+    for bits in itertools.product((False, True), repeat=len(atoms)):
+        asg = dict(zip(atoms, bits))
+        results = []
+        for ps in pss:
+            if all(bool_eval(c, atom_of, asg) == pol for _, pol, c in ps.conds):
+                if ps.term != "return":
+                    results.append(None)
+                else:
+                    results.append(bool_eval(ps.retval, atom_of, asg))
+        results = set(results)
+        if len(results) != 1:
+            raise UnknownAtom(f"assignment {asg} selects results {results}")
+        table[bits] = results.pop()
+    return table
+
+
+# ---------------------------------------------------------------------------
+# text assembled from pieces: one normal form for  "a{}b".format(x),
+# f"a{x}b",  "a" + x + "b"  and  "a%sb" % x
+
+def text_parts(v):
+    """-> list of ("const", str) and abstract values, adjacent constants merged;
+    None if v is not a recognisable text assembly"""
+    def parts(v):
+        if not isinstance(v, tuple):
+            return None
+        if v[0] == "const" and isinstance(v[1], str):
+            return [v]
+        if v[0] == "fstring":
+            out = []
+            for p in v[1]:
+                out.extend(parts(p) if (p[0] in ("fstring",) or (
+                    p[0] == "const" and isinstance(p[1], str))) else [p])
+            return out
+        if v[0] == "strformat":
+            fmt, args = v[1], list(v[2])
+            out = []
+            bits = fmt.split("{}")
+            if len(bits) != len(args) + 1 or "{" in fmt.replace("{}", ""):
+                return None
+            for i, b in enumerate(bits):
+                if b:
+                    out.append(("const", b))
+                if i < len(args):
+                    out.append(args[i])
+            return out
+        if v[0] == "binop" and v[1] == "Add":
+            a, b = parts(v[2]), parts(v[3])
+            if a is None or b is None:
+                return None
+            return a + b
+        if v[0] == "binop" and v[1] == "Mod" and v[2][0] == "const" and \
+                isinstance(v[2][1], str):
+            fmt = v[2][1]
+            args = list(v[3][2]) if v[3][0] == "lit" and v[3][1] == "tuple" \
+                else [v[3]]
+            bits = fmt.split("%s")
+            if len(bits) != len(args) + 1 or "%" in fmt.replace("%s", ""):
+                return None
+            out = []
+            for i, b in enumerate(bits):
+                if b:
+                    out.append(("const", b))
+                if i < len(args):
+                    out.append(args[i])
+            return out
+        return [v]
+    ps = parts(v)
+    if ps is None:
+        return None
+    out = []
+    for p in ps:
+        if out and p[0] == "const" and out[-1][0] == "const" and \
+                isinstance(p[1], str) and isinstance(out[-1][1], str):
+            out[-1] = ("const", out[-1][1] + p[1])
+        else:
+            out.append(p)
+    return out
